@@ -291,6 +291,8 @@ type Store struct {
 	Roll      *KeyRoll
 	rolled    bool
 	signReads int
+	gates     []*Gate
+	gateSeen  map[string]int
 }
 
 func NewStore(clients []*ClientSpec, sk SignKeySpec, pol StorePolicy) *Store {
@@ -337,6 +339,9 @@ func (s *Store) CallsOf(req int) []JEntry {
 
 // enter journals the call and decides whether a fault fires. Caller must not hold mu.
 func (s *Store) enter(method string, args ...string) *Fault {
+	if g := s.gateFor(method, false); g != nil {
+		g.park()
+	}
 	s.mu.Lock()
 	defer s.mu.Unlock()
 	s.callInReq++
@@ -352,6 +357,87 @@ func (s *Store) enter(method string, args ...string) *Fault {
 		s.Journal = append(s.Journal, JEntry{Req: s.curReq, Call: s.callInReq, Method: method, Args: args, Fault: hit != nil})
 	}
 	return hit
+}
+
+// Gate parks one storage call until the harness releases it, so that a check owns the interleaving of concurrent requests:
+// the Nth call (1-based, counted per method over the life of the store) of Method blocks either on entry (before the
+// storage looked at its state) or on exit (the result is computed, the answer is delayed). Nothing in the library sees a
+// difference from a slow storage. A parked call resumes by itself after GateTimeout so that a harness bug cannot wedge a run.
+type Gate struct {
+	Method   string
+	Nth      int
+	AtExit   bool
+	parked   chan struct{}
+	release  chan struct{}
+	TimedOut bool
+}
+
+const GateTimeout = 20 * time.Second
+
+// AddGate registers a gate; call it before the request that is to be parked is sent.
+func (s *Store) AddGate(method string, nth int, atExit bool) *Gate {
+	g := &Gate{Method: method, Nth: nth, AtExit: atExit, parked: make(chan struct{}), release: make(chan struct{})}
+	s.mu.Lock()
+	s.gates = append(s.gates, g)
+	s.mu.Unlock()
+	return g
+}
+
+// WaitParked reports whether the gated call arrived (and is now blocked) within d.
+func (g *Gate) WaitParked(d time.Duration) bool {
+	select {
+	case <-g.parked:
+		return true
+	case <-time.After(d):
+		return false
+	}
+}
+
+// Release lets the parked call (or a call that has not arrived yet) continue. Idempotent.
+func (g *Gate) Release() {
+	select {
+	case <-g.release:
+	default:
+		close(g.release)
+	}
+}
+
+func (s *Store) gateFor(method string, atExit bool) *Gate {
+	s.mu.Lock()
+	defer s.mu.Unlock()
+	if len(s.gates) == 0 {
+		return nil
+	}
+	if s.gateSeen == nil {
+		s.gateSeen = map[string]int{}
+	}
+	k := method
+	if atExit {
+		k += "/exit"
+	}
+	s.gateSeen[k]++
+	for _, g := range s.gates {
+		if g.Method == method && g.AtExit == atExit && g.Nth == s.gateSeen[k] {
+			return g
+		}
+	}
+	return nil
+}
+
+func (g *Gate) park() {
+	close(g.parked)
+	select {
+	case <-g.release:
+	case <-time.After(GateTimeout):
+		g.TimedOut = true
+	}
+}
+
+// leave is deferred by every storage method: exit gates park here, after the method computed its result.
+func (s *Store) leave(method string) {
+	if g := s.gateFor(method, true); g != nil {
+		g.park()
+	}
 }
 
 func (s *Store) nextID(prefix string) string {
@@ -377,6 +463,7 @@ func (s *Store) refreshTTL() time.Duration {
 // op.AuthStorage
 
 func (s *Store) CreateAuthRequest(ctx context.Context, r *oidc.AuthRequest, userID string) (op.AuthRequest, error) {
+	defer s.leave("CreateAuthRequest")
 	f := s.enter("CreateAuthRequest", r.ClientID, r.RedirectURI)
 	if f != nil && f.Kind != "partial" {
 		return nil, f.err()
@@ -410,6 +497,7 @@ func (s *Store) wrapAR(a *AuthReq) op.AuthRequest {
 }
 
 func (s *Store) AuthRequestByID(ctx context.Context, id string) (op.AuthRequest, error) {
+	defer s.leave("AuthRequestByID")
 	f := s.enter("AuthRequestByID", id)
 	if f != nil && f.Kind != "partial" {
 		return nil, f.err()
@@ -427,6 +515,7 @@ func (s *Store) AuthRequestByID(ctx context.Context, id string) (op.AuthRequest,
 }
 
 func (s *Store) AuthRequestByCode(ctx context.Context, code string) (op.AuthRequest, error) {
+	defer s.leave("AuthRequestByCode")
 	f := s.enter("AuthRequestByCode", code)
 	if f != nil && f.Kind != "partial" {
 		return nil, f.err()
@@ -448,6 +537,7 @@ func (s *Store) AuthRequestByCode(ctx context.Context, code string) (op.AuthRequ
 }
 
 func (s *Store) SaveAuthCode(ctx context.Context, id, code string) error {
+	defer s.leave("SaveAuthCode")
 	f := s.enter("SaveAuthCode", id, code)
 	if f != nil && f.Kind != "partial" {
 		return f.err()
@@ -465,6 +555,7 @@ func (s *Store) SaveAuthCode(ctx context.Context, id, code string) error {
 }
 
 func (s *Store) DeleteAuthRequest(ctx context.Context, id string) error {
+	defer s.leave("DeleteAuthRequest")
 	f := s.enter("DeleteAuthRequest", id)
 	if f != nil && f.Kind != "partial" {
 		return f.err()
@@ -514,6 +605,7 @@ func (s *Store) newAccess(req op.TokenRequest, refreshID string) *AccessTok {
 }
 
 func (s *Store) CreateAccessToken(ctx context.Context, req op.TokenRequest) (string, time.Time, error) {
+	defer s.leave("CreateAccessToken")
 	f := s.enter("CreateAccessToken", req.GetSubject())
 	if f != nil && f.Kind != "partial" {
 		return "", time.Time{}, f.err()
@@ -528,6 +620,7 @@ func (s *Store) CreateAccessToken(ctx context.Context, req op.TokenRequest) (str
 }
 
 func (s *Store) CreateAccessAndRefreshTokens(ctx context.Context, req op.TokenRequest, current string) (string, string, time.Time, error) {
+	defer s.leave("CreateAccessAndRefreshTokens")
 	f := s.enter("CreateAccessAndRefreshTokens", req.GetSubject(), current)
 	if f != nil && f.Kind != "partial" {
 		return "", "", time.Time{}, f.err()
@@ -589,6 +682,7 @@ func (s *Store) CreateAccessAndRefreshTokens(ctx context.Context, req op.TokenRe
 }
 
 func (s *Store) TokenRequestByRefreshToken(ctx context.Context, token string) (op.RefreshTokenRequest, error) {
+	defer s.leave("TokenRequestByRefreshToken")
 	f := s.enter("TokenRequestByRefreshToken", token)
 	if f != nil && f.Kind != "partial" {
 		return nil, f.err()
@@ -607,6 +701,7 @@ func (s *Store) TokenRequestByRefreshToken(ctx context.Context, token string) (o
 }
 
 func (s *Store) TerminateSession(ctx context.Context, userID, clientID string) error {
+	defer s.leave("TerminateSession")
 	f := s.enter("TerminateSession", userID, clientID)
 	if f != nil && f.Kind != "partial" {
 		return f.err()
@@ -635,6 +730,7 @@ func (s *Store) terminate(userID, clientID string) {
 }
 
 func (s *Store) RevokeToken(ctx context.Context, tokenOrID, userID, clientID string) *oidc.Error {
+	defer s.leave("RevokeToken")
 	f := s.enter("RevokeToken", tokenOrID, userID, clientID)
 	if f != nil && f.Kind != "partial" {
 		return oidc.ErrServerError().WithParent(f.err())
@@ -679,6 +775,7 @@ func (s *Store) refreshByRevocationID(id string) (*RefreshTok, bool) {
 }
 
 func (s *Store) GetRefreshTokenInfo(ctx context.Context, clientID, token string) (string, string, error) {
+	defer s.leave("GetRefreshTokenInfo")
 	f := s.enter("GetRefreshTokenInfo", clientID, token)
 	if f != nil && f.Kind != "partial" {
 		return "", "", f.err()
@@ -700,6 +797,7 @@ func (s *Store) GetRefreshTokenInfo(ctx context.Context, clientID, token string)
 }
 
 func (s *Store) SigningKey(ctx context.Context) (op.SigningKey, error) {
+	defer s.leave("SigningKey")
 	f := s.enter("SigningKey")
 	if f != nil && f.Kind != "partial" {
 		return nil, f.err()
@@ -733,6 +831,7 @@ func (s *Store) SetKeyRoll(r KeyRoll) {
 }
 
 func (s *Store) SignatureAlgorithms(ctx context.Context) ([]jose.SignatureAlgorithm, error) {
+	defer s.leave("SignatureAlgorithms")
 	f := s.enter("SignatureAlgorithms")
 	if f != nil {
 		return nil, f.err()
@@ -749,6 +848,7 @@ func (s *Store) SignatureAlgorithms(ctx context.Context) ([]jose.SignatureAlgori
 }
 
 func (s *Store) KeySet(ctx context.Context) ([]op.Key, error) {
+	defer s.leave("KeySet")
 	f := s.enter("KeySet")
 	if f != nil && f.Kind != "partial" {
 		return nil, f.err()
@@ -769,6 +869,7 @@ func (s *Store) KeySet(ctx context.Context) ([]op.Key, error) {
 // op.OPStorage
 
 func (s *Store) GetClientByClientID(ctx context.Context, id string) (op.Client, error) {
+	defer s.leave("GetClientByClientID")
 	f := s.enter("GetClientByClientID", id)
 	if f != nil && f.Kind != "partial" {
 		return nil, f.err()
@@ -786,6 +887,7 @@ func (s *Store) GetClientByClientID(ctx context.Context, id string) (op.Client, 
 }
 
 func (s *Store) AuthorizeClientIDSecret(ctx context.Context, id, secret string) error {
+	defer s.leave("AuthorizeClientIDSecret")
 	f := s.enter("AuthorizeClientIDSecret", id)
 	if f != nil {
 		return f.err()
@@ -841,6 +943,7 @@ const (
 )
 
 func (s *Store) SetUserinfoFromScopes(ctx context.Context, ui *oidc.UserInfo, userID, clientID string, scopes []string) error {
+	defer s.leave("SetUserinfoFromScopes")
 	f := s.enter("SetUserinfoFromScopes", userID, clientID, strings.Join(scopes, " "))
 	if f != nil && f.Kind != "partial" {
 		return f.err()
@@ -875,6 +978,7 @@ func (s *Store) liveToken(tokenID, subject string) (*AccessTok, error) {
 }
 
 func (s *Store) SetUserinfoFromToken(ctx context.Context, ui *oidc.UserInfo, tokenID, subject, origin string) error {
+	defer s.leave("SetUserinfoFromToken")
 	f := s.enter("SetUserinfoFromToken", tokenID, subject)
 	if f != nil && f.Kind != "partial" {
 		return f.err()
@@ -903,6 +1007,7 @@ func (s *Store) SetUserinfoFromToken(ctx context.Context, ui *oidc.UserInfo, tok
 }
 
 func (s *Store) SetIntrospectionFromToken(ctx context.Context, ir *oidc.IntrospectionResponse, tokenID, subject, clientID string) error {
+	defer s.leave("SetIntrospectionFromToken")
 	f := s.enter("SetIntrospectionFromToken", tokenID, subject, clientID)
 	if f != nil && f.Kind != "partial" {
 		return f.err()
@@ -953,6 +1058,7 @@ func privateClaims(clientID string, scopes []string) map[string]any {
 }
 
 func (s *Store) GetPrivateClaimsFromScopes(ctx context.Context, userID, clientID string, scopes []string) (map[string]any, error) {
+	defer s.leave("GetPrivateClaimsFromScopes")
 	f := s.enter("GetPrivateClaimsFromScopes", userID, clientID, strings.Join(scopes, " "))
 	if f != nil && f.Kind != "partial" {
 		return nil, f.err()
@@ -965,6 +1071,7 @@ func (s *Store) GetPrivateClaimsFromScopes(ctx context.Context, userID, clientID
 }
 
 func (s *Store) GetKeyByIDAndClientID(ctx context.Context, keyID, clientID string) (*jose.JSONWebKey, error) {
+	defer s.leave("GetKeyByIDAndClientID")
 	f := s.enter("GetKeyByIDAndClientID", keyID, clientID)
 	if f != nil && f.Kind != "partial" {
 		return nil, f.err()
@@ -987,6 +1094,7 @@ func (s *Store) GetKeyByIDAndClientID(ctx context.Context, keyID, clientID strin
 }
 
 func (s *Store) ValidateJWTProfileScopes(ctx context.Context, userID string, scopes []string) ([]string, error) {
+	defer s.leave("ValidateJWTProfileScopes")
 	f := s.enter("ValidateJWTProfileScopes", userID, strings.Join(scopes, " "))
 	if f != nil && f.Kind != "partial" {
 		return nil, f.err()
@@ -1004,6 +1112,7 @@ func (s *Store) ValidateJWTProfileScopes(ctx context.Context, userID string, sco
 }
 
 func (s *Store) Health(ctx context.Context) error {
+	defer s.leave("Health")
 	if f := s.enter("Health"); f != nil {
 		return f.err()
 	}
@@ -1014,6 +1123,7 @@ func (s *Store) Health(ctx context.Context) error {
 // optional capabilities (exposed through the wrapper types in caps.go)
 
 func (s *Store) clientCredentials(ctx context.Context, id, secret string) (op.Client, error) {
+	defer s.leave("ClientCredentials")
 	f := s.enter("ClientCredentials", id)
 	if f != nil && f.Kind != "partial" {
 		return nil, f.err()
@@ -1031,6 +1141,7 @@ func (s *Store) clientCredentials(ctx context.Context, id, secret string) (op.Cl
 }
 
 func (s *Store) clientCredentialsTokenRequest(ctx context.Context, id string, scopes []string) (op.TokenRequest, error) {
+	defer s.leave("ClientCredentialsTokenRequest")
 	f := s.enter("ClientCredentialsTokenRequest", id)
 	if f != nil && f.Kind != "partial" {
 		return nil, f.err()
@@ -1048,6 +1159,7 @@ func (s *Store) clientCredentialsTokenRequest(ctx context.Context, id string, sc
 }
 
 func (s *Store) validateTokenExchangeRequest(ctx context.Context, r op.TokenExchangeRequest) error {
+	defer s.leave("ValidateTokenExchangeRequest")
 	f := s.enter("ValidateTokenExchangeRequest", r.GetExchangeSubject(), string(r.GetRequestedTokenType()))
 	if f != nil {
 		return f.err()
@@ -1098,6 +1210,7 @@ func (s *Store) validateTokenExchangeRequest(ctx context.Context, r op.TokenExch
 }
 
 func (s *Store) createTokenExchangeRequest(ctx context.Context, r op.TokenExchangeRequest) error {
+	defer s.leave("CreateTokenExchangeRequest")
 	if f := s.enter("CreateTokenExchangeRequest", r.GetSubject()); f != nil {
 		return f.err()
 	}
@@ -1105,6 +1218,7 @@ func (s *Store) createTokenExchangeRequest(ctx context.Context, r op.TokenExchan
 }
 
 func (s *Store) tePrivateClaims(ctx context.Context, r op.TokenExchangeRequest) (map[string]any, error) {
+	defer s.leave("GetPrivateClaimsFromTokenExchangeRequest")
 	f := s.enter("GetPrivateClaimsFromTokenExchangeRequest", r.GetSubject())
 	if f != nil && f.Kind != "partial" {
 		return nil, f.err()
@@ -1123,6 +1237,7 @@ func (s *Store) tePrivateClaims(ctx context.Context, r op.TokenExchangeRequest) 
 }
 
 func (s *Store) teUserinfo(ctx context.Context, ui *oidc.UserInfo, r op.TokenExchangeRequest) error {
+	defer s.leave("SetUserinfoFromTokenExchangeRequest")
 	f := s.enter("SetUserinfoFromTokenExchangeRequest", r.GetSubject())
 	if f != nil && f.Kind != "partial" {
 		return f.err()
@@ -1143,6 +1258,7 @@ func (s *Store) teUserinfo(ctx context.Context, ui *oidc.UserInfo, r op.TokenExc
 }
 
 func (s *Store) verifyThird(ctx context.Context, token string, tt oidc.TokenType, actor bool) (string, string, map[string]any, error) {
+	defer s.leave("VerifyExchangeToken")
 	f := s.enter("VerifyExchangeToken", token, string(tt))
 	if f != nil {
 		return "", "", nil, f.err()
@@ -1154,6 +1270,7 @@ func (s *Store) verifyThird(ctx context.Context, token string, tt oidc.TokenType
 }
 
 func (s *Store) storeDeviceAuthorization(ctx context.Context, clientID, deviceCode, userCode string, expires time.Time, scopes []string) error {
+	defer s.leave("StoreDeviceAuthorization")
 	f := s.enter("StoreDeviceAuthorization", clientID, deviceCode, userCode)
 	if f != nil && f.Kind != "partial" {
 		return f.err()
@@ -1176,6 +1293,7 @@ func (s *Store) storeDeviceAuthorization(ctx context.Context, clientID, deviceCo
 }
 
 func (s *Store) getDeviceAuthorizationState(ctx context.Context, clientID, deviceCode string) (*op.DeviceAuthorizationState, error) {
+	defer s.leave("GetDeviceAuthorizatonState")
 	f := s.enter("GetDeviceAuthorizatonState", clientID, deviceCode)
 	if f != nil && f.Kind != "partial" {
 		return nil, f.err()
@@ -1196,6 +1314,7 @@ func (s *Store) getDeviceAuthorizationState(ctx context.Context, clientID, devic
 }
 
 func (s *Store) terminateSessionFromRequest(ctx context.Context, r *op.EndSessionRequest) (string, error) {
+	defer s.leave("TerminateSessionFromRequest")
 	f := s.enter("TerminateSessionFromRequest", r.UserID, r.ClientID, r.RedirectURI)
 	if f != nil && f.Kind != "partial" {
 		return "", f.err()
@@ -1210,6 +1329,7 @@ func (s *Store) terminateSessionFromRequest(ctx context.Context, r *op.EndSessio
 }
 
 func (s *Store) setUserinfoFromRequest(ctx context.Context, ui *oidc.UserInfo, r op.IDTokenRequest, scopes []string) error {
+	defer s.leave("SetUserinfoFromRequest")
 	f := s.enter("SetUserinfoFromRequest", r.GetSubject(), strings.Join(scopes, " "))
 	if f != nil {
 		return f.err()
@@ -1219,6 +1339,7 @@ func (s *Store) setUserinfoFromRequest(ctx context.Context, ui *oidc.UserInfo, r
 }
 
 func (s *Store) getPrivateClaimsFromRequest(ctx context.Context, r op.TokenRequest, scopes []string) (map[string]any, error) {
+	defer s.leave("GetPrivateClaimsFromRequest")
 	f := s.enter("GetPrivateClaimsFromRequest", r.GetSubject(), strings.Join(scopes, " "))
 	if f != nil {
 		return nil, f.err()
@@ -1233,6 +1354,7 @@ func (s *Store) getPrivateClaimsFromRequest(ctx context.Context, r op.TokenReque
 }
 
 func (s *Store) jwtProfileTokenType(ctx context.Context, r op.TokenRequest) (op.AccessTokenType, error) {
+	defer s.leave("JWTProfileTokenType")
 	f := s.enter("JWTProfileTokenType", r.GetSubject())
 	if f != nil {
 		return op.AccessTokenTypeBearer, f.err()
